@@ -85,6 +85,15 @@ func buildHistPool(seed uint64, big bool) *histPool {
 		}
 		hp.singles = append(hp.singles, add(Medium{Records: rs}, acc))
 	}
+	// two long activity streams that visit most hosted message kinds with many of
+	// their fields (per-message-kind state shared between calls or goroutines)
+	for i := 0; i < 2; i++ {
+		r := NewRng(seed, "C08/allkinds", i)
+		rs := genStream(r, StreamOpts{FT: 4, NData: 220, Arch: 2, Unknown: false, Dev: false, Compressed: true, MaxFields: 14, BigArr: true, Hdr14: i == 0})
+		if b := rs.Build(); plainDecodeOK(b) {
+			hp.singles = append(hp.singles, add(Medium{Records: rs}, hasAccumSource(b)))
+		}
+	}
 	// two different streams with more than 256 distinct definitions each (bounded
 	// process-wide tables keyed by definition content)
 	for i := 0; i < 2; i++ {
